@@ -2,6 +2,8 @@ package main
 
 import (
 	"fmt"
+	"go/token"
+	"go/types"
 	"os"
 	"path/filepath"
 	"sort"
@@ -96,4 +98,142 @@ func loadedGlobal(v ssa.Value) *ssa.Global {
 		}
 	}
 	return nil
+}
+
+// compiledStateWrites: structural obligation for C06 - the compiled program is immutable at run time.
+// Run-time entry points are the functions of execute.go and env.go and every function with the callback
+// signature func(any, []any) any (native builtins, including method values of *compiler such as
+// c.funcInput that are embedded in the code). Neither they nor any function they call statically
+// (transitively, inside the package) store into a compiler, Code, code, codeinfo or scopeinfo object or
+// into a map or slice loaded from a field of one. Calls through function values are not followed.
+func (r *report) compiledStateWrites() {
+	shared := map[string]bool{"compiler": true, "Code": true, "code": true, "codeinfo": true, "scopeinfo": true, "funcinfo": true, "varinfo": true, "Query": true}
+	isShared := func(t types.Type) bool {
+		if pt, ok := types.Unalias(t).Underlying().(*types.Pointer); ok {
+			t = pt.Elem()
+		}
+		n, ok := types.Unalias(t).(*types.Named)
+		return ok && n.Obj().Pkg() != nil && n.Obj().Pkg().Path() == gojqPath && shared[n.Obj().Name()]
+	}
+	// the object an address is rooted at: x.f, x.f[i], (*x.f)[i] ...
+	var rootedAtShared func(v ssa.Value, depth int) string
+	rootedAtShared = func(v ssa.Value, depth int) string {
+		if depth > 8 {
+			return ""
+		}
+		switch x := v.(type) {
+		case *ssa.FieldAddr:
+			if isShared(x.X.Type()) {
+				pt := types.Unalias(x.X.Type()).Underlying().(*types.Pointer)
+				st := types.Unalias(pt.Elem()).Underlying().(*types.Struct)
+				return types.TypeString(pt.Elem(), func(*types.Package) string { return "" }) + "." + st.Field(x.Field).Name()
+			}
+			return rootedAtShared(x.X, depth+1)
+		case *ssa.IndexAddr:
+			return rootedAtShared(x.X, depth+1)
+		case *ssa.UnOp:
+			if x.Op == token.MUL {
+				// a slice, map or pointer loaded from a field of a shared object
+				return rootedAtShared(x.X, depth+1)
+			}
+		}
+		return ""
+	}
+	var keys []string
+	for k := range r.eng.funcs {
+		keys = append(keys, k)
+	}
+	sort.Strings(keys)
+	isCallbackSig := func(sig *types.Signature) bool {
+		if sig.Params().Len() != 2 || sig.Results().Len() != 1 || sig.Variadic() {
+			return false
+		}
+		if !isEmptyInterface(sig.Params().At(0).Type()) || !isEmptyInterface(sig.Results().At(0).Type()) {
+			return false
+		}
+		sl, ok := types.Unalias(sig.Params().At(1).Type()).Underlying().(*types.Slice)
+		return ok && isEmptyInterface(sl.Elem())
+	}
+	work := []*ssa.Function{}
+	seen := map[*ssa.Function]bool{}
+	add := func(fn *ssa.Function) {
+		if fn == nil || seen[fn] || len(fn.Blocks) == 0 {
+			return
+		}
+		pk := r.eng.fnPkg(fn)
+		if pk == nil || pk.Pkg.Path() != gojqPath {
+			return
+		}
+		seen[fn] = true
+		work = append(work, fn)
+	}
+	nentry := 0
+	for _, k := range keys {
+		fn := r.eng.funcs[k]
+		pk := r.eng.fnPkg(fn)
+		if pk == nil || pk.Pkg.Path() != gojqPath || len(fn.Blocks) == 0 {
+			continue
+		}
+		f := r.eng.relFile(fn)
+		if f == "execute.go" || f == "env.go" || isCallbackSig(fn.Signature) {
+			if !seen[fn] {
+				nentry++
+			}
+			add(fn)
+		}
+	}
+	var bad []string
+	for len(work) > 0 {
+		fn := work[len(work)-1]
+		work = work[:len(work)-1]
+		k := r.eng.funcKey(fn)
+		for _, b := range fn.Blocks {
+			for _, in := range b.Instrs {
+				switch x := in.(type) {
+				case *ssa.Store:
+					if w := rootedAtShared(x.Addr, 0); w != "" {
+						bad = append(bad, fmt.Sprintf("%s stores into %s at %s", k, w, r.eng.fset.Position(x.Pos())))
+					}
+				case *ssa.MapUpdate:
+					if w := rootedAtShared(x.Map, 0); w != "" {
+						bad = append(bad, fmt.Sprintf("%s writes the map %s at %s", k, w, r.eng.fset.Position(x.Pos())))
+					}
+				case ssa.CallInstruction:
+					cc := x.Common()
+					if cc.IsInvoke() {
+						continue
+					}
+					switch f := cc.Value.(type) {
+					case *ssa.Function:
+						add(f)
+					case *ssa.MakeClosure:
+						add(f.Fn.(*ssa.Function))
+					}
+				}
+				if mc, ok := in.(*ssa.MakeClosure); ok {
+					add(mc.Fn.(*ssa.Function)) // a closure created at run time runs at run time
+				}
+			}
+		}
+	}
+	r.extraObl++
+	name := "gojq/structural/compiled-program-immutable-at-run-time"
+	detail := fmt.Sprintf("no run-time function (functions of execute.go and env.go, native callbacks func(any, []any) any including compiler method values, and their static callees: %d entry points, %d functions scanned) stores into a compiler, Code, code, codeinfo, scopeinfo or Query object; calls through function values are not followed", nentry, len(seen))
+	if len(bad) == 0 {
+		r.extraOK++
+		r.extraSamples = append(r.extraSamples, map[string]any{"obligation": name, "kind": "structural (call-graph closure, no solver)", "clause": detail, "status": "discharged"})
+		return
+	}
+	dir := filepath.Join(r.verif, "replays", r.id)
+	os.MkdirAll(dir, 0o755)
+	path := filepath.Join(dir, "compiled-program-immutable.txt")
+	txt := fmt.Sprintf("property: %s\nobligation: %s\n%s\nfailed:\n", r.id, name, detail)
+	sort.Strings(bad)
+	for _, b := range bad {
+		txt += "  " + b + "\n"
+	}
+	os.WriteFile(path, []byte(txt+"no counterexample: structural obligation\n"), 0o644)
+	fmt.Printf("VIOLATION property=%s replay=%s obligation=%s status=structural no-failing-input-found\n", r.id, path, name)
+	r.violations = append(r.violations, name)
+	r.structFail = true
 }
